@@ -366,6 +366,7 @@ class Mat:
         self.labels: list = []
         self.dir = ""
         self.app_name = None
+        self.problems: list = []
 
 
 def _materialise(case, tab: L.Table) -> Mat:
@@ -391,6 +392,12 @@ def _materialise(case, tab: L.Table) -> Mat:
         if name in L.RAW_SEGMENTS:
             n = int(spec["n"])
             gap = tab.gap(name)
+            w = L.NOMINAL_SIZE[name]
+            if gap is not None and w > gap:
+                # the table itself leaves less room than the block's fixed size: a verdict (c), and the case goes on with what fits
+                m.problems.append("table of %s/%s/%s leaves 0x%x bytes for %s, whose fixed size is 0x%x: a regular block overwrites the next segment" % (
+                    dev, rev, mt, gap, name, w))
+                n = min(n, gap)
             if n < 1 or (gap is not None and n > gap):
                 raise HarnessError("generator produced size %d for %s (gap %s)" % (n, name, gap))
             data = _raw_payload(spec["seed"], n, L.NOMINAL_SIZE[name])
@@ -399,7 +406,6 @@ def _materialise(case, tab: L.Table) -> Mat:
                 f.write(data)
             cfg[key] = path
             m.pay[name] = data
-            w = L.NOMINAL_SIZE[name]
             m.labels.append("size:short" if n < w else "size:nominal" if n == w else "size:over")
             if gap is not None and n == gap and n != w:
                 m.labels.append("size:gap")
@@ -473,7 +479,11 @@ def _evaluate(case, o: Oracle, tab: L.Table, m: Mat, eff: int, tname: str) -> No
     req = case.get("init", 0)
     placed = tab.place({n: len(b) for n, b in m.pay.items()}, eff)
     if placed.overlaps:
-        raise HarnessError("generator produced overlapping payloads %s for %s" % (placed.overlaps, tname))
+        # raw blocks are cut to their gap, so what overlaps here are fixed-format payloads (FCB, XMCD, version word) the table leaves no room for
+        o.label("table_overlap")
+        o.fail("no_overlap", "table_overlap", "%s: the table puts regular payloads on top of each other: %s" % (
+            tname, [(a, placed.pos[a], placed.length[a], b, placed.pos[b]) for a, b in placed.overlaps]))
+        return
     want = placed.image(m.pay, tab.pattern)
     present = placed.order()
     n_real = len([n for n in present if n not in L.VALUE_SEGMENTS])
@@ -499,6 +509,8 @@ def _evaluate(case, o: Oracle, tab: L.Table, m: Mat, eff: int, tname: str) -> No
     o.nontrivial(len(present) >= 2 or eff > 0)
     o.key(("c14", tname, repr(sorted((k, repr(v)) for k, v in case.items() if k not in ("dev", "rev", "mt")))))
     o.sample({"tuple": tname, "init": req, "segments": {n: [placed.pos[n], placed.length[n]] for n in present}, "length": placed.total})
+    for p in m.problems:
+        o.fail("no_overlap", "table_gap", p)
     if not present:
         o.nontrivial(False)
         return
